@@ -373,6 +373,13 @@ fn main() {
             }
             log.log(id, case);
             // observation for the model
+            if lost_table {
+                // only the result code is comparable: the table is gone from the catalog
+                steps_coq.push(format!("HSC {} ({}) {}", zlist(&ord.iter().map(|x| *x as i64).collect::<Vec<_>>()), stmt.coq(), zl(code)));
+                sum.model_cases += 1;
+                sum.count("history_cut_table_lost_from_catalog");
+                break;
+            }
             let tabs_obs: Vec<String> = post.iter().map(|(t, rows)| format!("TB {} {} {}", t, nfks(&db, *t), rowscoq(rows))).collect();
             steps_coq.push(format!("HS {} ({}) {} [{}] {}",
                 zlist(&ord.iter().map(|x| *x as i64).collect::<Vec<_>>()), stmt.coq(), zl(code), tabs_obs.join(";"),
@@ -382,10 +389,6 @@ fn main() {
             pre = post;
             pre_orphans = orphans;
             j += 1;
-            if lost_table {
-                sum.count("history_cut_table_lost_from_catalog");
-                break;
-            }
             if pk_duplicates(&tabs, &pre) {
                 // C10 territory (duplicate primary keys): the hash index and the rows disagree from here on
                 sum.count("history_cut_duplicate_pk");
